@@ -13,6 +13,7 @@ import (
 	"fmt"
 	"math"
 	"sort"
+	"strconv"
 	"strings"
 	"sync"
 	"unsafe"
@@ -1647,14 +1648,14 @@ func parseFieldNumValue(s string) (float64, int32, error) {
 }
 
 // parseFloatValue parses a decimal floating-point token. The token must be a number in the
-// sense of IsValidNumber; NaN and infinities are rejected.
+// sense of IsValidNumber; the value is the correctly rounded float64 of the decimal text;
+// a value that overflows float64 is rejected.
 func parseFloatValue(s string) (float64, error) {
 	if !IsValidNumber(s) {
 		return 0, fmt.Errorf("invalid field value")
 	}
-	// ParseBestEffort does not understand a leading '+' (it answers 0)
-	f := fastfloat.ParseBestEffort(strings.TrimPrefix(s, "+"))
-	if math.IsNaN(f) || math.IsInf(f, 0) {
+	f, err := strconv.ParseFloat(s, 64)
+	if err != nil || math.IsNaN(f) || math.IsInf(f, 0) {
 		return 0, fmt.Errorf("invalid number")
 	}
 	return f, nil
